@@ -65,9 +65,7 @@ func (pr *Program) allObligations(props ...string) ([]*Obl, []string, map[string
 			wantUnary = true
 		}
 	}
-	if wantRel && !wantUnary {
-		return pr.relObligations(props)
-	}
+	_ = wantUnary // unary clauses tagged C10/C11 (table symmetry, ASCII folding of toUpperCmp, ...) belong to those checks too
 	all, errs, assumed := pr.unaryObligations()
 	if wantRel {
 		a2, e2, as2 := pr.relObligations(props)
